@@ -1412,3 +1412,204 @@ def c16(run):
         run.violation("pickle -> other process -> hash/dict lookup", [p.stdout.decode()[:300]],
                       "hash(obj) != hash(str(obj)) after unpickling in a fresh interpreter",
                       "hash of the compact string", "cross-process pickle", kind="history")
+
+
+# --------------------------------------------------------------------------- C15 / C14
+def call_pool(S, r, n):
+    """A mixed pool of library calls (validation, generation, seeded random, lookups, failing calls)."""
+    import natref
+    pool = []
+    de_banks = [e for e in S.banks_of("DE") if e.get("checksum_algo")]
+    for _ in range(n):
+        k = r.random()
+        if k < 0.25:
+            e = r.choice(de_banks)
+            acct = "".join(r.choice(DIGITS) for _ in range(10))
+            b = e["bank_code"] + acct
+            pool.append(["iban.new", hx("DE" + iban_check_digits("DE", b) + b), "F", "T"])
+        elif k < 0.35:
+            e = r.choice(de_banks)
+            acct = list("".join(r.choice(DIGITS) for _ in range(10)))
+            acct[r.randrange(10)] = r.choice("A+ x")
+            pool.append(["bban.national", hx("DE"), hx(e["bank_code"] + "".join(acct))])
+        elif k < 0.45:
+            m = r.choice(["02", "04", "07", "14", "16", "23", "25", "00", "03", "08", "21", "68", "76"])
+            a = "".join(r.choice(DIGITS) for _ in range(10))
+            if r.random() < 0.3:
+                a = a[:r.randrange(10)] + r.choice("Xx-") + a[1:]
+            pool.append(["algo.validate", hx("DE:" + m), "-", hx(a[:10])])
+        elif k < 0.6:
+            cc = r.choice(sorted(natref.NATIONAL))
+            b = S.bban(cc).upper()
+            if r.random() < 0.5:
+                b = natref.make_valid(cc, b, r) or b
+            pool.append(["iban.new", hx(cc + iban_check_digits(cc, b) + b), "F", r.choice("TF")])
+        elif k < 0.7:
+            i = S.iban(with_bank=True)
+            pool.append(["bban.bank", hx(i[:2]), hx(i[4:])])
+        elif k < 0.8:
+            e = r.choice(S.banks)
+            pool.append([r.choice(["bic.from_bank_code", "bic.candidates"]), hx(e["country_code"]), hx(e["bank_code"])])
+        elif k < 0.85:
+            e = r.choice(S.banks)
+            if e["bic"]:
+                pool.append(["bic.lookup", hx(e["bic"])])
+        elif k < 0.93:
+            cc = r.choice(S.countries)
+            pool.append(["iban.random", hx(cc), str(r.randrange(10 ** 6)), r.choice("TF")])
+        else:
+            cc = r.choice(S.countries)
+            pool.append(["iban.generate", hx(cc), hx("".join(r.choice(DIGITS) for _ in range(r.randint(0, 9)))),
+                         hx("".join(r.choice(DIGITS + "A-") for _ in range(r.randint(0, 12)))), "-"])
+    # lookup sequences around bank codes whose first-listed entry is not primary
+    firsts = {}
+    for e in S.banks_of("DE"):
+        firsts.setdefault(e["bank_code"], []).append(e)
+    tricky = [c for c, l in firsts.items() if c and not l[0]["primary"] and any(x["primary"] for x in l)]
+    for code in r.sample(tricky, min(len(tricky), 12)):
+        b = code + "0000000000"
+        pool += [["bban.bank", hx("DE"), hx(b)], ["bic.from_bank_code", hx("DE"), hx(code)]]
+    return pool
+
+
+def registry_fingerprint():
+    from realops import registry, checksum
+    import hashlib
+    import json
+    h = hashlib.sha256()
+    for k in sorted(map(str, registry._registry)):
+        v = registry._registry[k if k in registry._registry else eval(k)]
+        h.update(k.encode())
+        h.update(json.dumps(v, sort_keys=False, default=lambda o: getattr(o, "pattern", str(type(o)))).encode()
+                 if not isinstance(v, dict) or all(isinstance(x, str) for x in v)
+                 else repr([(kk, [id(e) for e in vv] if isinstance(vv, list) else sorted(map(str, vv)) if isinstance(vv, dict) else id(vv))
+                            for kk, vv in v.items()]).encode())
+    return h.hexdigest()
+
+
+@prop("C15",
+      rule="call histories (30-60 calls drawn with repetition from a mixed pool: validations with and without "
+           "national validation, failing and malformed calls, generation, seeded random generation, lookups, "
+           "lookup sequences around non-primary-first bank codes), each run in a fresh forked child; every "
+           "outcome is compared with the outcome of the same call as the FIRST call of another fresh child; the "
+           "registries are fingerprinted before/after and objects created before the history are re-read; "
+           "non-trivial = distinct (history, position)",
+      note="generic history theorem and its German-scratch instance proved; absence of hidden state in "
+           "CPython/third-party modules and immutability of the registries are checked dynamically")
+def c15(run):
+    import sched
+    S = Streams(run.seed * 1000 + 15)
+    r = S.r
+    pool = call_pool(S, r, run.scale(260, 4000))
+    ref = {}
+
+    def first_call(op):
+        key = "\t".join(op)
+        if key not in ref:
+            ref[key] = sched.in_child(lambda: real(op))
+        return ref[key]
+
+    n_hist = run.scale(24, 400)
+    for hno in range(n_hist):
+        hist = [r.choice(pool) for _ in range(r.randint(30, 60))]
+        if hno % 3 == 0:       # repeat a few calls, interleaved with failing ones
+            hist += hist[:10]
+
+        def play():
+            from realops import IBAN, BIC
+            objs = [IBAN("DE89370400440532013000"), BIC("GENODEM1GLS"), IBAN("XX", allow_invalid=True)]
+            snap = [(str(o), repr(sorted(o.__dict__.items(), key=str))) for o in objs]
+            fp0 = registry_fingerprint()
+            outs = [real(op) for op in hist]
+            fp1 = registry_fingerprint()
+            snap1 = [(str(o), repr(sorted(o.__dict__.items(), key=str))) for o in objs]
+            return outs, fp0 == fp1, snap == snap1
+        res = sched.in_child(play)
+        if res is None:
+            run.notes.append("history child died")
+            continue
+        outs, reg_same, objs_same = res
+        if not reg_same:
+            run.violation("bundled registries", [[readable_op(o) for o in hist][:8]], "registry fingerprint changed",
+                          "unchanged registries", "fingerprint before/after a history", kind="history", history=hist)
+        if not objs_same:
+            run.violation("previously created objects", [], "an object changed", "unchanged objects",
+                          "objects re-read after a history", kind="history", history=hist)
+        for pos, (op, out) in enumerate(zip(hist, outs)):
+            want = first_call(op)
+            run.count(1, key=(hno, pos), tag="history call " + op[0])
+            if out != want:
+                # shrink: shortest prefix + this call that still differs
+                lo = 0
+                for start in range(pos, -1, -1):
+                    h2 = hist[start:pos] + [op]
+                    o2 = sched.in_child(lambda h2=h2: [real(x) for x in h2])
+                    if o2 and o2[-1] != want:
+                        lo = start
+                        break
+                run.violation("call after a history", [readable_op(x) for x in hist[lo:pos]] + [readable_op(op)], out,
+                              want, "same call as the first call of a fresh process", kind="history",
+                              history=hist[lo:pos] + [op], op=op, expected_line=want)
+                break
+    run.samples.append({"history": [readable_op(o) for o in pool[:6]]})
+
+
+def readable_op(op):
+    from checklib import readable
+    return op[0] + "(" + ", ".join(readable(x) for x in op[1:]) + ")"
+
+
+@prop("C14",
+      rule="pairs of calls routed to the same algorithm object (methods whose code reads the scratch cell: 02, "
+           "04, 07, 14, 16, 23, 25; an accepting and a rejecting account each) and pairs of first lookups, run in "
+           "two real threads under a deterministic line-level scheduler (sys.settrace hand-off inside schwifty/); "
+           "all single-preemption schedules up to a budget, each in a forked child; a schedule whose results "
+           "differ from running alone is the replay; non-trivial = distinct (pair, schedule)",
+      note="non-interference proved for the per-thread-state model; effect probe ties it to the code; real "
+           "preemption finer than a source line, the free-threaded build and third-party modules are not modelled")
+def c14(run):
+    import natref
+    import sched
+    S = Streams(run.seed * 1000 + 14)
+    r = S.r
+    pairs = []
+    for m in ["02", "04", "07", "14", "16", "23", "25"]:
+        acc = rej = None
+        for _ in range(4000):
+            a = "".join(r.choice(DIGITS) for _ in range(10))
+            v = natref.de(m, a)
+            if v is True and acc is None:
+                acc = a
+            if v is False and rej is None:
+                rej = a
+            if acc and rej:
+                break
+        if acc and rej:
+            pairs.append([["algo.validate", hx("DE:" + m), "-", hx(rej)], ["algo.validate", hx("DE:" + m), "-", hx(acc)]])
+            banks = [e for e in S.banks_of("DE") if e.get("checksum_algo") == m]
+            if banks:
+                e = banks[0]
+                ops = []
+                for a in (rej, acc):
+                    b = e["bank_code"] + a
+                    ops.append(["iban.new", hx("DE" + iban_check_digits("DE", b) + b), "F", "T"])
+                pairs.append(ops)
+    # first lookups in a fresh process
+    pairs.append([["bic.from_bank_code", hx("DE"), hx("43060967")], ["bban.bank", hx("DE"), hx("370400440532013000")]])
+    pairs.append([["iban.new", hx("DE65100307000100000111"), "F", "T"], ["bic.candidates", hx("DE"), hx("10030700")]])
+    if run.tier != "thorough":
+        pairs = pairs[:: 2] + pairs[-2:]
+    budget = run.scale(70, 2000)
+    total = 0
+    for ops in pairs:
+        n, found = sched.search(ops, limit=budget)
+        total += n
+        run.count(n, key=tuple(map(tuple, ops)), tag="schedules " + ops[0][0])
+        for k in range(n):
+            run.distinct.add((tuple(map(tuple, ops)), k))
+        if found:
+            sch, got, want = found
+            run.violation("two concurrent calls", [readable_op(o) for o in ops], got, want,
+                          "line-level schedule search on the real code", kind="schedule", ops=ops,
+                          schedule=sch, expected_alone=want)
+    run.samples.append({"pair": [readable_op(o) for o in pairs[0]], "schedules_run": total})
